@@ -25,8 +25,7 @@ from harness.common import exc_name
 PID = "C13"
 TITLE = "Static context seen by an element depends only on what encloses and precedes it"
 LEAN_MODULES = ["LenaModel.Props.C13"]
-LEAN_SOURCES = ["LenaModel/Model/C13.lean", "LenaModel/Lemmas/C13Dict.lean", "LenaModel/Lemmas/C13Pass.lean",
-                "LenaModel/Props/C13.lean"]
+LEAN_SOURCES = ["LenaModel/Model/C13.lean", "LenaModel/Props/C13.lean"]
 DRIVER = "drivers/C13.lean"
 THEOREMS = [
 ]
